@@ -1,4 +1,21 @@
 #!/venv/bin/python
-import sys, os, runpy
-sys.argv += ["--prop", "C03"]
-runpy.run_path(os.path.join(os.path.dirname(os.path.abspath(__file__)), "search_partition.py"), run_name="__main__")
+"""C03 searcher: direct make_children/deepen interleavings on every partition class, then trees grown by T-HOO/HCT/VHCT."""
+import sys, os, subprocess, json
+here = os.path.dirname(os.path.abspath(__file__))
+args = sys.argv[1:]
+budget = 60
+if "--budget" in args:
+    budget = int(args[args.index("--budget") + 1])
+sites = args[args.index("--sites") + 1] if "--sites" in args else "[]"
+algo_first = any(x in sites for x in ("T_HOO", "HCT", "VHCT", "HOO_node"))
+order = ["search_bandit.py", "search_partition.py"] if algo_first else ["search_partition.py", "search_bandit.py"]
+for script in order:
+    a2 = [x for x in args]
+    if "--budget" in a2:
+        a2[a2.index("--budget") + 1] = str(max(10, budget // 2))
+    p = subprocess.run(["/venv/bin/python", os.path.join(here, script), "--prop", "C03"] + a2, capture_output=True, text=True)
+    last = p.stdout.strip().split("\n")[-1] if p.stdout.strip() else ""
+    if last.startswith("{") and json.loads(last).get("found"):
+        print(last)
+        sys.exit(0)
+print(json.dumps({"found": False}))
